@@ -9,7 +9,7 @@ import (
 // Plan generator of the `world` scenario (swarm style: sizes, key algorithms,
 // fault kinds, deviation kinds and workload mix are drawn per run).
 
-var cmdSegments = []string{"a", "ab", "b", "bc", "c"}
+var cmdSegments = []string{"a", "ab", "abc", "b", "bc", "c", "foo", "foobar"}
 
 type wgen struct {
 	r     *Rand
@@ -77,7 +77,7 @@ func (g *wgen) other(not ...int) int {
 func (g *wgen) note(s string) { g.notes = append(g.notes, s) }
 
 func extendCmd(r *Rand, c string) string {
-	if len(cmdSegs(c)) >= 4 {
+	if len(cmdSegs(c)) >= 5 {
 		return c
 	}
 	s := Pick(r, cmdSegments)
@@ -116,9 +116,15 @@ func notCovered(r *Rand, base string) (string, string) {
 		case "b":
 			return prefix + "/bc", "textprefix"
 		case "ab":
-			return prefix + "/a", "textprefix"
+			return prefix + Pick(r, []string{"/a", "/abc"}), "textprefix"
 		case "bc":
 			return prefix + "/b", "textprefix"
+		case "abc":
+			return prefix + "/ab", "textprefix"
+		case "foo":
+			return prefix + "/foobar", "textprefix"
+		case "foobar":
+			return prefix + "/foo", "textprefix"
 		}
 		fallthrough
 	default:
@@ -426,6 +432,7 @@ func (g *wgen) buildChain(n int, tcSec int64, args []KV) *chain {
 		if polBudget > 0 && r.Chance(0.6) {
 			m := r.Range(1, polBudget)
 			d.Pol = genPolicy(r, args, m)
+			d.PolSpare = r.Chance(0.3)
 			polBudget -= m
 		}
 		g.bounds(&d.Nbf, &d.Exp, tcSec)
@@ -918,6 +925,10 @@ func (g *wgen) deviateK(c *chain) {
 		if nc == "" {
 			return
 		}
+		if nc != "/" && r.Chance(0.5) {
+			// a look-alike with further child segments (/a vs /ab/c)
+			nc, kind = extendCmd(r, nc), kind+"+child"
+		}
 		// notCovered returns something base does not cover... here we need a
 		// command the leaf does not cover
 		c.inv.Cmd = nc
@@ -927,6 +938,9 @@ func (g *wgen) deviateK(c *chain) {
 	nc, kind := notCovered(r, c.dlgs[k-1].Cmd)
 	if nc == "" {
 		return
+	}
+	if nc != "/" && r.Chance(0.5) {
+		nc, kind = extendCmd(r, nc), kind+"+child"
 	}
 	pos := "mid"
 	if k == n-1 {
